@@ -46,7 +46,7 @@ def generate(rng, tier, idx):
     w = gen_world(rng, n_models=(2, 6), n_wav=(12, 40), n_filters=(3, 5), n_ap=(2, 5), filt_desc=True, n_par=(1, 3), allow_zero_band=True)
     if w['format'] == 1 and rng.random() < 0.2:
         w['mixed'] = rng.randrange(w['n_models'])        # one SED on another wavelength grid (per-file packages only)
-    big = rng.random() < (0.02 if tier == 'thorough' else 0.003)
+    big = rng.random() < (0.02 if tier == 'thorough' else 0.008)
     if big:
         # a grid larger than any plausible internal block size, and not a multiple of a power of two (cube format keeps it cheap)
         w.update(format=2, n_models=rng.choice([1030, 4100, 16421, 16421]), n_wav=12, n_ap=(2 if w['apdep'] else 1), asc_per_file=None, mixed=None,
